@@ -1,10 +1,27 @@
 (* Extract.v — extraction of the executable model and the spec oracles to OCaml.
    ExtrOcamlBasic only (bool, option, list, prod, unit, sumbool -> OCaml natives);
-   N / Z / positive / nat stay the extracted inductive datatypes. *)
+   N / Z / positive / nat stay the extracted inductive datatypes.
+   The x_* aliases give the driver stable names. *)
 From V Require Import Base.
-From V.spec Require Import SpecTape.
-From V.model Require Import MCassette.
+From V.spec Require Import SpecTape SpecDisk.
+From V.model Require Import MCassette MDisk.
 From Coq Require Import Extraction ExtrOcamlBasic.
 Extraction Language OCaml.
+
+Definition x_cas_write := MCassette.write.
+Definition x_cas_parse := SpecTape.parse.
+Definition x_cas_list := MCassette.list_files.
+
+Definition x_dsk_add := MDisk.add_files.
+Definition x_dsk_image := MDisk.image_of.
+Definition x_dsk_fsck := SpecDisk.fsck.
+Definition x_dsk_files := SpecDisk.files.
+Definition x_dsk_list := MDisk.list_files.
+Definition x_dsk_free (img : list byte) := SpecDisk.free_granules (SpecDisk.slice img).
+Definition x_dsk_needed := MDisk.needed.
+Definition x_dsk_default_order := MDisk.default_order.
+Definition x_dsk_layout_ok := MDisk.layout_constants_ok.
+
 Extraction "model.ml"
-  SpecTape.parse MCassette.write MCassette.list_files MCassette.norm.
+  x_cas_write x_cas_parse x_cas_list
+  x_dsk_add x_dsk_image x_dsk_fsck x_dsk_files x_dsk_list x_dsk_free x_dsk_needed x_dsk_default_order x_dsk_layout_ok.
